@@ -16,7 +16,7 @@ root = os.path.dirname(os.path.dirname(os.path.abspath(__file__)))
 dst = os.path.join(root, "seeded", seed)
 os.makedirs(dst, exist_ok=True)
 for f in ("patch.diff", "demo.py", "notes.txt"):
-    if os.path.exists(os.path.join(src, f)):
+    if os.path.exists(os.path.join(src, f)) and os.path.abspath(src) != os.path.abspath(dst):
         shutil.copy(os.path.join(src, f), os.path.join(dst, f))
 patch = os.path.join(dst, "patch.diff")
 wt = tempfile.mkdtemp(prefix="seedwt_", dir="/tmp")
